@@ -11,11 +11,15 @@ type rewriter struct {
 	rules   map[string]string
 	file    *ast.File
 	changed bool
+	extraImports [][2]string
 }
 
 func (rw *rewriter) run() {
 	if rw.rules["numcpu"] != "" {
 		rw.rewriteNumCPU()
+	}
+	if rw.rules["mutex"] != "" {
+		rw.rewriteMutexOnly()
 	}
 	if rw.rules["go"] != "" || rw.rules["chan"] != "" {
 		rw.rewriteConc()
@@ -47,3 +51,26 @@ func (rw *rewriter) rewriteNumCPU() {
 	})
 }
 
+
+// rewriteMutexOnly (rule "mutex") turns only sync.Mutex / sync.RWMutex type references into their
+// vsync counterparts and leaves the rest of package sync alone (for packages whose exported API
+// mentions *sync.WaitGroup and the like).
+func (rw *rewriter) rewriteMutexOnly() {
+	found := false
+	ast.Inspect(rw.file, func(n ast.Node) bool {
+		se, ok := n.(*ast.SelectorExpr)
+		if !ok {
+			return true
+		}
+		id, ok := se.X.(*ast.Ident)
+		if ok && id.Name == "sync" && (se.Sel.Name == "Mutex" || se.Sel.Name == "RWMutex") {
+			id.Name = "vsync"
+			found = true
+		}
+		return true
+	})
+	if found {
+		rw.changed = true
+		rw.extraImports = append(rw.extraImports, [2]string{"vsync", "verif/vrt/vsync"})
+	}
+}
